@@ -52,8 +52,8 @@ Reading of the statement (clauses; recorded in the final report):
          loop next goes quiescent").  Idle callbacks registered later, or removed meanwhile, are not
          required.  An idle callback is never entered while not registered (after removal).
  exc     after a callback raised, no further callback is entered (strict=True: virtual loops; for real
-         loops callbacks of the same pass are tolerated, but the loop must not block again and the
-         harness stop alarm must not be reached); ExitMainLoop -> run() returns; otherwise run()
+         loops callbacks of the same pass are tolerated, but no callback may be entered once the
+         loop has blocked again, and the harness stop alarm must not be reached); ExitMainLoop -> run() returns; otherwise run()
          raises that very exception object; a later run() does not raise it again; run() neither
          returns nor raises without a callback having raised, and raises nothing no callback raised.
 """
@@ -83,10 +83,12 @@ def judge(trace, thr=0.0, tol=0.0, strict=True, have_ready=True, rerun_exc_only=
     unread = defaultdict(int)
     need = set()  # idle ids that must run before the next blocking wait
     owed = []  # (pipe, wid) reported ready by the last select, not yet served
+    reported = set()  # pipes reported ready by the last select
     cand = {}  # pipe -> wid readable and watched when the last blocking wait started
     raised = []  # labels raised in the current run
     past = []  # labels raised in earlier runs
     flagged_after = False
+    blocked_after_raise = False
 
     mute = [False]
 
@@ -104,8 +106,10 @@ def judge(trace, thr=0.0, tol=0.0, strict=True, have_ready=True, rerun_exc_only=
             raised = []
             need.clear()
             owed = []
+            reported = set()
             cand = {}
             flagged_after = False
+            blocked_after_raise = False
         elif k == "alarm":
             alarms[ev[2]] = [ev[4], ev[5], "pending"]
         elif k == "rm_alarm":
@@ -161,8 +165,8 @@ def judge(trace, thr=0.0, tol=0.0, strict=True, have_ready=True, rerun_exc_only=
                 if strict:
                     v("exc", i, f"{cid} entered after {raised[0]} was raised by a callback: the loop did not stop")
                     flagged_after = True
-                elif kind == "Z":
-                    v("exc", i, f"the loop kept running until the harness stop alarm although {raised[0]} was raised by a callback")
+                elif kind == "Z" or blocked_after_raise:
+                    v("exc", i, f"{cid} entered after {raised[0]} was raised by a callback and the loop had blocked again: the loop did not stop")
                     flagged_after = True
                 else:
                     notes.append(f"{cid} entered in the pass in which {raised[0]} was raised")
@@ -188,10 +192,14 @@ def judge(trace, thr=0.0, tol=0.0, strict=True, have_ready=True, rerun_exc_only=
                 else:
                     if unread[pipe] <= 0:
                         v("watch", i, f"{cid} entered although descriptor {pipe} has no unread data")
+                    # (a watch removed and registered anew by an earlier callback of the pass may be served
+                    # in that pass or in the next one: the statement allows both -- first formulation
+                    # demanded "reported for this very registration" and was a false alarm on the zmq loop)
                     if (pipe, cid) in owed:
                         owed.remove((pipe, cid))
-                    elif have_ready:
+                    if have_ready and pipe not in reported:
                         v("watch", i, f"{cid} entered without the preceding select having reported descriptor {pipe}")
+                    reported.discard(pipe)
                 if cand.get(pipe) == cid:
                     del cand[pipe]
             elif kind == "I":
@@ -219,7 +227,12 @@ def judge(trace, thr=0.0, tol=0.0, strict=True, have_ready=True, rerun_exc_only=
                 v("watch", i, f"the loop selects on descriptors {sorted(registered)} but the watched ones are {sorted(watch)}")
             if timeout is None or timeout > thr:
                 if raised:
-                    v("exc", i, f"the loop blocks again (timeout={timeout!r}) after {raised[0]} was raised by a callback")
+                    # real loops (strict=False): a wait of the underlying library while it shuts down is not
+                    # the urwid loop "running" (trio.run waits once during teardown -- a false alarm of the
+                    # first formulation); what counts there is a callback entered after such a wait
+                    blocked_after_raise = True
+                    if strict:
+                        v("exc", i, f"the loop blocks again (timeout={timeout!r}) after {raised[0]} was raised by a callback")
                 if need:
                     used["idle"] = True
                     v("idle", i, f"the loop blocks (timeout={timeout!r}) although idle callbacks {sorted(need)} have not run since the last alarm/watch callback")
@@ -233,6 +246,7 @@ def judge(trace, thr=0.0, tol=0.0, strict=True, have_ready=True, rerun_exc_only=
                 cand = {p: w for p, w in watch.items() if unread[p] > 0}
             if ready is not None:
                 owed = [(p, watch.get(p)) for p in ready]
+                reported = set(ready)
         elif k == "end":
             how = ev[2]
             nonexit = [x for x in raised if not x.startswith("exit#")]
